@@ -154,6 +154,9 @@ def r17_1(ctx, R, counter):
             ok, det = classify_upper(ctx, b, pe, hi, counter, need_heap)
             ctx.ob("R17.1", b, "upper-bound-covers-in-flight#path%d" % k, ok, d_loc(b), det, path=path if not ok else None)
             lo_ok = (lo[0] == "const" and lo[2] == "0") or (lo[0] == "call" and re.search(r"saturating_add$", lo[1] or "") is not None)
+            if not lo_ok and ((lo[0] == "call" and (lo[1] or "").endswith("::len")) or (lo[0] == "proj" and lo[2][-1].startswith("."))) \
+                    and ("field", counter) in _leaves(ctx, b, pe, lo):
+                lo_ok = True       # exactly the in-flight count (no upstream left / nothing known about it)
             if lo[0] == "call" and lo_ok:
                 lv = set()
                 for a in lo[2]:
